@@ -175,7 +175,7 @@ def run(ctx):
     ctx.extra['user_template_pairs'] = nuser
 
     # (K2) crop size / default radial map vs model
-    vals = [0.5, 1.0, 1.2, 2.0, 2.5, 3.0, 4.5, 7.75, 9.0, 13.1]
+    vals = [0.5, 1.0, 1.2, 2.0, 2.5, 3.0, 4.5, 7.75, 9.0, 13.1, 7.004, 21.003, 3.0000001, 5.999999, 12.0049, 2.0 + 2.0 ** -40]
     fr = [F(v) for v in vals]
     got = ctx.coq_eval('ceil', 'Base.Util Model.PadCrop', ['map (fun q => (crop_size (fst q) (snd q), rmap_size (fst q) (snd q), rmap_centre (fst q) (snd q))) [%s]'
                                                           % '; '.join('(%d, %d)' % (f.numerator, f.denominator) for f in fr)])[0]
@@ -267,6 +267,8 @@ def run(ctx):
         shape = (int(rng.integers(2, 91)), int(rng.integers(2, 91)))
         if kind in ('Circular', 'RadialGradient'):
             search = max(radius, search)
+        if rng.random() < 0.15:
+            search = float(math.ceil(search) + rng.choice([0.004, 0.0004, 1e-7]))      # just above an integer: ceil must go up
         fail = stmt_failure(kind, radius, search, ro if kind not in ('Circular', 'RadialGradient') else None, shape)
         ctx.count(1, key=(kind, radius, ro, shape))
         if fail:
